@@ -155,11 +155,26 @@ where
         }
     };
 
-    match tokio::try_join!(l_c_s, s_c_l) {
+    tokio::pin!(l_c_s, s_c_l);
+    let (first, other) = tokio::select! {
+        res = &mut l_c_s => (res, futures::future::Either::Left(s_c_l)),
+        res = &mut s_c_l => (res, futures::future::Either::Right(l_c_s)),
+    };
+    match first {
         Ok(_) => unreachable!("should never reach here"),
+        Err(res @ relay::Result::Close(..)) => {
+            // One side has closed and its data and end-of-stream have been passed on. Give the peer a moment to
+            // end its side too: dropping the sockets while it is still sending resets the connection, and a reset
+            // discards what was passed on but not yet delivered.
+            let _ = time::timeout(CLOSE_GRACE, other).await;
+            res
+        }
         Err(e) => e,
     }
 }
+
+/// How long the other direction may take to end after one side has closed, before the flow is torn down anyway.
+const CLOSE_GRACE: Duration = Duration::from_secs(2);
 
 pub async fn transfer_udp<Context, NewContext, Key, NewKey, Out, NewOut, ToOutSend, ToInRecv, OutRecv, OutSend>(
     inbound: UdpSocket,
